@@ -195,11 +195,18 @@ func SimC02(c *CheckCtx, i int, r *Rng) error {
 			v.Faults = []proto.Fault{fp.fault}
 			sc.Variants = append(sc.Variants, Variant{Name: fp.name, Ops: []Op{{Kind: "run", Run: &v, How: fp.how}, {Kind: "converge", K: 4, How: "recover"}}})
 			kind := strings.SplitN(fp.name, "@", 2)[0]
-			c.Env.Stats.Fingerprint(fmt.Sprintf("%d pkgs/%d events/%s", len(m.Pkgs), len(evs), fp.name))
 			c.Env.Stats.Add("points/"+kind, 1)
 		}
-		if _, err := c.RunScenario(sc, i); err != nil {
+		bout, err := c.RunScenario(sc, i)
+		if err != nil {
 			return err
+		}
+		for _, fp := range points[lo:hi] {
+			if bout.NonTrivial(fp.name) {
+				c.Env.Stats.Fingerprint(fmt.Sprintf("sim %d/%d pkgs/%d events/%s", i, len(m.Pkgs), len(evs), fp.name))
+			} else {
+				c.Env.Stats.Add("failure-points-not-fired", 1)
+			}
 		}
 	}
 	c.Env.Stats.Sample(map[string]any{"sim": i, "packages": len(m.Pkgs), "generators": names, "victim_events": len(evs), "failure_points": len(points),
@@ -348,10 +355,23 @@ func SimC01(c *CheckCtx, i int, r *Rng) error {
 			follow := *victim
 			follow.Fresh = false
 			sc.Variants = append(sc.Variants, Variant{Name: p.name, Ops: []Op{{Kind: "run", Run: &v}, {Kind: "run", Run: &follow}}})
-			c.Env.Stats.Fingerprint(fmt.Sprintf("c01/%d/%s", i, p.name))
 		}
-		if _, err := c.RunScenario(sc, i); err != nil {
+		bout, err := c.RunScenario(sc, i)
+		if err != nil {
 			return err
+		}
+		for _, p := range points[lo:min(lo+batch, len(points))] {
+			fired := false
+			for _, st := range bout.Records[p.name] {
+				if st.Resp != nil && len(st.Resp.Fired) > 0 {
+					fired = true
+				}
+			}
+			if fired {
+				c.Env.Stats.Fingerprint(fmt.Sprintf("c01/%d/%s", i, p.name))
+			} else {
+				c.Env.Stats.Add("failure-points-not-fired", 1)
+			}
 		}
 	}
 	c.Env.Stats.Sample(map[string]any{"sim": i, "module": m.ModPath, "go": m.GoVer, "packages": len(m.Pkgs), "generators": names, "events": len(evs), "io_failure_points": len(points)}, 3)
